@@ -4,6 +4,7 @@ import Driver.Exit
 import Driver.Refs
 import Driver.AssembleE
 import Driver.AssembleH
+import Driver.AssembleM
 import Driver.Heat
 import Driver.Magnetics
 import Driver.PostInt
@@ -20,6 +21,7 @@ def main (args : List String) : IO UInt32 := do
   let stdout ← IO.getStdout
   match args with
   | "sparse" :: rest => Driver.Sparse.run (rest.headD "float") stdin stdout; return 0
+  | "assemble-m" :: _ => Driver.AssembleM.run stdin stdout; return 0
   | "assemble-h" :: _ => Driver.AssembleH.run stdin stdout; return 0
   | "assemble-e" :: _ => Driver.AssembleE.run stdin stdout; return 0
   | "magnetics" :: _ => Driver.Magnetics.run stdin stdout; return 0
